@@ -118,6 +118,40 @@ class C16(Prop):
             for fl in ("local", "threads"):
                 out.append(Case("time", fl, [("pipe", [["takeuntil", ["interval", "1"], ["interval", str(p + 1)]]])],
                                 tail_script(p, 5 * p + 8), {"kind": "interval-both", "period": p + 1}))
+        # a HOT subject as second input of a two-input operator inside a chain with scheduler-using operators
+        # (chain model: stage `op2n _ (.hot j)`, `TW.deliverNotifiers`): items and terminals of either subject, the
+        # early terminator above; full line compared.  (Found unexercised by tools/model_mutants.py: every `time`
+        # population put an interval or a counting iterator there; own random stream, the other populations stay.)
+        rng2 = random.Random(seed + 1602)
+        for _ in range(reps):
+            k = rng2.choice(TWO)
+            main = ["hot", "0"]
+            if rng2.random() < 0.5:
+                main = rng2.choice(TIME_MIDDLE + MIDDLE) + [main]
+            pipe = [k, main, ["hot", "1"]]
+            for _ in range(rng2.randint(0, 2)):
+                pipe = rng2.choice(MIDDLE + TIME_MIDDLE) + [pipe]
+            if rng2.random() < 0.7:
+                pipe = rng2.choice(CUTTERS) + [pipe]
+            evs = [["sub"], ["run"]]
+            nxt = 1
+            for step in range(rng2.randint(4, 14)):
+                r = rng2.random()
+                if r < 0.35:
+                    evs += [["emit", "0", sx.N(nxt)], ["run"]]
+                    nxt += 1
+                elif r < 0.65:
+                    evs += [["emit", "1", sx.N(50 + nxt)], ["run"]]
+                    nxt += 1
+                elif r < 0.72:
+                    evs += [["emit", "1", rng2.choice(["c", ["e", "4"]])], ["run"]]
+                elif r < 0.77:
+                    evs += [["emit", "0", rng2.choice(["c", ["e", "3"]])], ["run"]]
+                else:
+                    evs += [["adv", str(rng2.choice([1, 1, 2, 5]))], ["run"]]
+            evs += [["adv", "12"], ["run"], ["q", "closed"]]
+            out.append(Case("time", rng2.choice(["local", "threads"]), [("pipe", [pipe])], evs,
+                            {"kind": "hot-second", "op": k}))
         # counting iterator
         for _ in range(reps):
             n = rng.randint(0, 8)
